@@ -260,6 +260,10 @@ func (s *Sixel) Resize(w int, h int) {
 		if max.Y%cellPixH != 0 {
 			s.h += 1
 		}
+		// The encoder writes bands of six rows and reads the rows of
+		// the last band from below the image, which paints them with
+		// the first palette colour. Give it transparent rows instead
+		img = padSixelBand(img)
 		// Re-encode the image
 		s.buf.Reset()
 		var paletted image.Image
@@ -276,6 +280,19 @@ func (s *Sixel) Resize(w int, h int) {
 		}
 		s.vx.PostEventBlocking(Redraw{})
 	}()
+}
+
+// padSixelBand returns img with transparent rows added below it so that its
+// height is a multiple of six, the height of a sixel band
+func padSixelBand(img image.Image) image.Image {
+	b := img.Bounds()
+	pad := (6 - b.Dy()%6) % 6
+	if pad == 0 {
+		return img
+	}
+	dst := image.NewNRGBA(image.Rect(0, 0, b.Dx(), b.Dy()+pad))
+	draw.Draw(dst, image.Rect(0, 0, b.Dx(), b.Dy()), img, b.Min, draw.Src)
+	return dst
 }
 
 // CellSize is the current cell size of the encoded image
